@@ -800,6 +800,9 @@ func validate(m *Machine, h HarnessSpec, rep *HarnessReport, overlay map[string]
 			cm.call(fn, cm.entryArgs(fn), nil, 0)
 		}()
 		nat := native[k]
+		if strings.Contains(perr, "loop bound assumed") || strings.Contains(perr, "assume false") {
+			continue // this input lies outside the stated bound / assumption: nothing to compare
+		}
 		if perr != "" && !(strings.HasPrefix(perr, "path end") && (nat.Panic != "" || nat.Skipped)) {
 			rep.ValidateErr = fmt.Sprintf("input %d: executor %s vs native %+v", k, perr, nat)
 			return
